@@ -383,6 +383,9 @@ func (s *c20Sup) scripted(stage, dir string, startNum int, steps []c20Step, inje
 				res.Took = time.Since(t0)
 				res.Done = true
 				res.OK = f[2] == "ok"
+				if res.OK && len(f) >= 4 {
+					res.Mem = f[3]
+				}
 				if !res.OK && len(f) >= 5 {
 					res.MemCheck, res.Mem = f[3], f[4]
 					res.Err = strings.Join(f[5:], " ")
@@ -436,6 +439,15 @@ func (s *c20Sup) scripted(stage, dir string, startNum int, steps []c20Step, inje
 			s.violation("memory:not-previous-after-failed-SetClientConf:"+cause,
 				"SetClientConf returned an error but the in-memory configuration is no longer the previous one",
 				map[string]interface{}{"store": st.K, "fault": st.Fault, "inject": inject, "api_error": res.Err, "memcheck": res.MemCheck, "stage": stage})
+		}
+		if alive && res.OK && res.Op == "SetClientConf" && st.Flags != "bad" && res.Mem == "new" && res.Class == "" &&
+			bytes.Equal(now.Bytes, prev.Bytes) && now.Absent == prev.Absent && !bytes.Equal(now.Bytes, s.want(st.K)) {
+			// the call reported success, the file is still the previous configuration (the replacement did not happen), and
+			// the configuration that never reached the disk is in effect in memory (added after seeded change C20-N)
+			s.violation("memory:new-in-effect-although-file-not-replaced:"+stage,
+				"SetClientConf left the previous ClientConf file in place (the replacement failed) but the new configuration is in effect in memory and no error was returned",
+				map[string]interface{}{"store": st.K, "fault": st.Fault, "inject": inject, "file_before": prev.String(), "file_after": now.String(),
+					"want_new": fmt.Sprintf("config#%d(%dB)", st.K, len(s.want(st.K))), "memory": res.Mem, "leftover_sizes": res.Left})
 		}
 		disk = now
 		run.Steps = append(run.Steps, res)
